@@ -315,6 +315,21 @@ func (w *worker) runCase(line int, raw []byte) {
 		text := xast.Print(c.E, o)
 		w.cur.Store(fmt.Sprintf("line %d expr %s", line, text))
 		w.curAt.Store(time.Now().UnixNano())
+		if w.kind == "total" {
+			// C06 over expression-shaped inputs (every function with every typed argument tuple, ...): Compile,
+			// CompileWithNS and MustCompile must yield exactly one of (expression, error) and must not panic
+			evals++
+			if res := totality(text); res != "ok" && res != "err" {
+				w.report(Mismatch{Line: line, Kind: "total", Expr: text, Render: renderName(o), Fail: "totality", Want: json.RawMessage(`"exactly one of (expression, error)"`), Got: Outcome{Msg: res}, Via: "Compile", Case: raw})
+			} else if res == "ok" {
+				nontriv++
+				if len(localNT) == 0 {
+					localNT = append(localNT, text)
+				}
+			}
+			atomic.AddInt64(&w.st.Cases, 1)
+			continue
+		}
 		ex, err, co := compile(text, c.Ns)
 		if kind == "compile-err" {
 			evals++
